@@ -373,3 +373,79 @@ def translate_reduce(src: Path):
             "   Which cells reach Python's reduction — the None-free ones, in order — and when the answer is None outright.\n"
             + "".join(f"   {n}\n" for n in notes).replace("*)", "* )") + "*)\n" + IMPORTS + "\n" + SECTION_HEAD + "\n")
     return head + "\n".join(parts) + "\nEnd Reduce.\n", {"lines": lines, "notes": notes}
+
+
+# ---- isna / dropna (GenNa.v) ---------------------------------------------------------------------------------------
+
+IMPORTS_NA = ("From Coq Require Import List Bool.\nFrom Serif Require Import Base.PyVal Base.GenPrelude Model.Dtype.\n"
+              "Import ListNotations.\n")
+
+
+def translate_na(src: Path):
+    """Vector.isna and Vector.dropna: two strict shapes.
+         isna   : return Vector(tuple(<e> is None for <e> in self._underlying), dtype=DataType(bool))
+         dropna : dtype = self._dtype.with_nullable(False) if self._dtype is not None else None
+                  return Vector(tuple(<e> for <e> in self._underlying if <e> is not None), dtype=dtype)
+       A vector is (cells, dtype); DataType(bool) is mkD KBool false; d.with_nullable(False) is mkD (dkind d) false (that is what
+       the generated with_nullable of GenTyping.v is proved to be, EqTyping.v)."""
+    vpath = src / "vector.py"
+    tree = ast.parse(vpath.read_text(), filename=str(vpath))
+    V = _one_class(tree, vpath, "Vector")
+    parts, lines = [], {}
+
+    def body_of(name):
+        f = _method(V, vpath, name)
+        params, _ = _plain_params(f, vpath, f"Vector.{name}")
+        if params != ["self"]:
+            raise TranslationError(vpath, f.lineno, f"Vector.{name}: parameters {params}")
+        b = [s for s in f.body if not (isinstance(s, ast.Expr) and isinstance(s.value, ast.Constant) and isinstance(s.value.value, str))]
+        return f, b
+
+    f, b = body_of("isna")
+    ok = len(b) == 1 and isinstance(b[0], ast.Return) and isinstance(b[0].value, ast.Call)
+    if ok:
+        c = b[0].value
+        ok = (ast.unparse(c.func) == "Vector" and len(c.args) == 1 and [k.arg for k in c.keywords] == ["dtype"]
+              and ast.unparse(c.keywords[0].value) == "DataType(bool)" and isinstance(c.args[0], ast.Call)
+              and ast.unparse(c.args[0].func) == "tuple" and len(c.args[0].args) == 1 and isinstance(c.args[0].args[0], ast.GeneratorExp))
+        if ok:
+            g = c.args[0].args[0]
+            ok = (len(g.generators) == 1 and not g.generators[0].ifs and isinstance(g.generators[0].target, ast.Name)
+                  and ast.unparse(g.generators[0].iter) == "self._underlying"
+                  and ast.unparse(g.elt) == f"{g.generators[0].target.id} is None")
+    if not ok:
+        raise TranslationError(vpath, f.lineno, "Vector.isna is not `return Vector(tuple(e is None for e in self._underlying), dtype=DataType(bool))`")
+    parts.append(f"(* vector.py:{f.lineno}-{f.end_lineno} Vector.isna *)\n"
+                 "Definition vec_isna (xs : list (option val)) : list bool * dtype :=\n"
+                 "  (map (fun e => match e with None => true | Some _ => false end) xs, mkD KBool false).\n")
+    lines["vec_isna"] = [f.lineno, f.end_lineno]
+
+    f, b = body_of("dropna")
+    ok = (len(b) == 2 and ast.unparse(b[0]) == "dtype = self._dtype.with_nullable(False) if self._dtype is not None else None"
+          and isinstance(b[1], ast.Return) and isinstance(b[1].value, ast.Call))
+    if ok:
+        c = b[1].value
+        ok = (ast.unparse(c.func) == "Vector" and len(c.args) == 1 and [k.arg for k in c.keywords] == ["dtype"]
+              and ast.unparse(c.keywords[0].value) == "dtype" and isinstance(c.args[0], ast.Call)
+              and ast.unparse(c.args[0].func) == "tuple" and len(c.args[0].args) == 1 and isinstance(c.args[0].args[0], ast.GeneratorExp))
+        if ok:
+            g = c.args[0].args[0]
+            gg = g.generators[0] if len(g.generators) == 1 else None
+            ok = (gg is not None and isinstance(gg.target, ast.Name) and ast.unparse(gg.iter) == "self._underlying"
+                  and len(gg.ifs) == 1 and ast.unparse(gg.ifs[0]) == f"{gg.target.id} is not None"
+                  and ast.unparse(g.elt) == gg.target.id)
+    if not ok:
+        raise TranslationError(vpath, f.lineno, "Vector.dropna is not `dtype = self._dtype.with_nullable(False) if self._dtype is not None "
+                                                "else None; return Vector(tuple(e for e in self._underlying if e is not None), dtype=dtype)`")
+    parts.append(f"(* vector.py:{f.lineno}-{f.end_lineno} Vector.dropna *)\n"
+                 "Definition vec_dropna (dt : option dtype) (xs : list (option val)) : list (option val) * option dtype :=\n"
+                 "  let py_dtype := match dt with Some d => Some (mkD (dkind d) false) | None => None end in\n"
+                 "  (map Some (live_values xs), py_dtype).\n")
+    lines["vec_dropna"] = [f.lineno, f.end_lineno]
+    notes = ["strict shapes (see harness/translate_reduce.py: translate_na); DataType(bool) = mkD KBool false, "
+             "d.with_nullable(False) = mkD (dkind d) false (EqTyping.v proves that of the generated with_nullable)",
+             "NOT translated: Vector.fillna (validate / promote / fill: Model/NoneOps.fillna, tied by C06's correspondence check)"]
+    head = ("(* GenNa.v — GENERATED by harness/translate_reduce.py from vector.py (Vector.isna, Vector.dropna); do not edit.\n"
+            + "".join(f"   {n}\n" for n in notes).replace("*)", "* )") + "*)\n" + IMPORTS_NA
+            + "\nSection Na.\nVariable val : Type.\n\n")
+    return head + "\n".join(parts) + "\nEnd Na.\n", {"lines": lines, "notes": notes}
